@@ -430,6 +430,15 @@ func registerFS(ex *Executor) {
 		ino := ex.fsGet(st).Inodes[fv.Ino]
 		return TupleV{ex.strLen(st, ino.Content), ino.Mode, smt.True}, cNext
 	}
+	// the modification time of an existing file is whatever its history made it: an arbitrary instant after the epoch,
+	// recorded so that a native replay can give the file that age (verifAgeFile)
+	I["@verifFMTimeRaw"] = func(ex *Executor, st *State, cc *CallCtx, args []Val) (Val, ctl) {
+		v := smt.Var(fmt.Sprintf("nd%d_%s", len(st.ND), "int"), smt.Int)
+		st.ND = append(st.ND[:len(st.ND):len(st.ND)], NDRec{Kind: "ext-int", Tag: "mtime", T: v})
+		st.addPC(smt.Gt(v, smt.IntC(0)))
+		return v, cNext
+	}
+	I["@verifAgeFile"] = func(ex *Executor, st *State, cc *CallCtx, args []Val) (Val, ctl) { return nil, cNext }
 	I["@verifENOENT"] = func(ex *Executor, st *State, cc *CallCtx, args []Val) (Val, ctl) {
 		return ex.mkErr(st, "ENOENT"), cNext
 	}
